@@ -83,31 +83,53 @@ def overwrite_by_strategy(repo: Repo) -> Dict[str, Tuple[Any, Any]]:
 
 
 def rule_binding(ctx: Ctx, repo: Repo) -> None:
+    """apply_stub_using_libcst interpreted (helpers inlined): the one store_stub_in_context call, its arguments bound
+    against the parameter list of the *installed* libcst (read from its source)"""
     fi = repo.fn(CLI, "apply_stub_using_libcst")
     ctx.functions.add(fi.fq)
     sig = _libcst_signature()
     if sig is None:
         raise AnalysisError("the source of the installed libcst's ApplyTypeAnnotationsVisitor was not found")
-    cs = [c for c in calls_in(fi.node) if (dotted(c.func) or "").endswith("ApplyTypeAnnotationsVisitor.store_stub_in_context")]
-    ctx.check(len(cs) == 1, "R-C15.1", fi.fq, "the stub is stored in the libcst context once", construct=f"{len(cs)} calls")
-    pos = sig[: sig.index("*")]
-    for c in cs:
-        bound: Dict[str, ast.AST] = {}
-        for i, a in enumerate(c.args):
-            if i < len(pos):
-                bound[pos[i]] = a
-        for kw in c.keywords:
-            if kw.arg:
-                bound[kw.arg] = kw.value
-        ps = fi.positional_params()
-        ctx.check(dotted(bound.get("overwrite_existing_annotations")) == ps[2] == "overwrite_existing_annotations", "R-C15.1", fi.fq,
-                  "libcst's overwrite_existing_annotations receives the caller's overwrite flag (bound against the installed libcst's signature)",
-                  construct=f"{norm(c)[:160]} ; libcst parameters {sig}", node=c)
-        ctx.check(dotted(bound.get("use_future_annotations")) == ps[3], "R-C15.1", fi.fq, "libcst's use_future_annotations receives the confinement flag",
-                  construct=norm(c)[:160])
-        ctx.check(dotted(bound.get("stub")) == "stub_module", "R-C15.1", fi.fq, "the stub handed to libcst is the parsed stub text", construct=norm(c)[:160])
-        unknown = [k for k in bound if k not in sig]
-        ctx.check(not unknown, "R-C15.1", fi.fq, "every argument names a parameter the installed libcst has", construct=f"{unknown}")
+    pos = [p for p in sig[: sig.index("*")] if p not in ("self", "cls")]
+    ps = fi.positional_params()
+    for flag in (False, True):
+        stores: List[Tuple[Tuple[V, ...], Dict[str, V]]] = []
+
+        def hook(call, fname, fval, args, kwargs, st, _s=stores):
+            d = fname or ""
+            m = call.func.attr if isinstance(call.func, ast.Attribute) else None
+            last = d.split(".")[-1]
+            if d == "parse_module":
+                return R("module", of=args[0])
+            if d == "CodemodContext":
+                return R("context")
+            if d.endswith("store_stub_in_context"):
+                _s.append((tuple(st.freeze(a) for a in args), {k: st.freeze(v) for k, v in kwargs.items()}))
+                return K(None)
+            if d.endswith("store_imports_in_context"):
+                return K(None)
+            if d == "get_newly_imported_items":
+                return R("list", items=())
+            if last.endswith(("Visitor", "Transformer")) and last[:1].isupper():
+                return R("visitor", what=K(last))
+            if m in ("transform_module", "visit") and isinstance(fval, R) and fval.kind == "visitor":
+                return R("transformed", by=fval.fields["what"], of=st.freeze(args[0]) if args else K(None))
+            return None
+
+        sc = CliScenario(repo, CLI, "apply_stub_using_libcst", hook=hook)
+        sc.result({ps[0]: S("stub"), ps[1]: S("source"), ps[2]: S("overwrite"), ps[3]: K(flag)})
+        ctx.check(len(stores) == 1, "R-C15.1", fi.fq, "the stub is stored in the libcst context once", construct=f"confine={flag}: {len(stores)} calls")
+        for a, kw in stores:
+            bound: Dict[str, V] = dict(zip(pos, a))
+            bound.update(kw)
+            ctx.check(bound.get("overwrite_existing_annotations") == S("overwrite"), "R-C15.1", fi.fq,
+                      "libcst's overwrite_existing_annotations receives the caller's overwrite flag (bound against the installed libcst's signature)",
+                      construct=f"confine={flag}: {bound.get('overwrite_existing_annotations')} ; libcst parameters {sig}")
+            ctx.check(bound.get("use_future_annotations") == K(flag), "R-C15.1", fi.fq, "libcst's use_future_annotations receives the confinement flag",
+                      construct=f"confine={flag}: {bound.get('use_future_annotations')}")
+            ctx.check(bound.get("stub") == R("module", of=S("stub")), "R-C15.1", fi.fq, "the stub handed to libcst is the parsed stub text", construct=f"{bound.get('stub')}")
+            unknown = [k for k in bound if k not in sig]
+            ctx.check(not unknown and len(a) <= len(pos), "R-C15.1", fi.fq, "every argument names a parameter the installed libcst has", construct=f"{unknown}")
 
 
 def rule_write(ctx: Ctx, repo: Repo) -> None:
